@@ -49,8 +49,14 @@ CHECKS.update({
    text="Server direction: bodies of boundary lengths (up to 65536) under random keys are fed to the real server, the handler-received body must equal the TLA+ de-obfuscation and the raw reply bytes must equal clear XOR Pad; client direction: Client.Send over loopback TCP against a raw peer, the octets on the wire and the packet returned for scripted reply octets are recomputed by TLC. Secrets are handed over as adjacent sub-slices of one buffer.",
    note="Trusted: TLC, MD5.tla (validated against RFC 1321 A.5 and the captured vector of crypt_test.go each run). The harness uses Go crypto/md5 only to construct inputs. Keys/ids/lengths are seeded samples with boundary bias."),
 })
+CHECKS["C05"] = dict(engine="framing", design_ref="5/C05", category="model_checking",
+   technique="TLC explores ALL segmentations of all small streams on the implementation-shaped reader of Framing.tla against the segmentation-free function FramingFn!Parse; byte streams with seeded chunkings replayed on the real server and judged by TLC (Trace_Framing); client direction over TCP (Trace_Client)",
+   text="Parse(stream) defines what must be delivered from a byte stream independently of segmentation; MC_Framing shows the chunk-fed reader state machine (read-ahead buffer, two ReadFull steps, length test) equals it for every segmentation of every small stream, refuses oversize headers in the step that completes the header and never delivers a short packet. The real server is fed 1..6 packets (bodies 0..65536) cut into one-octet, boundary +-1, 107-octet and random chunks, with truncation, EOF, fired deadline and oversize endings; TLC compares the packets the handler received with Parse(stream).",
+   note="Trusted: TLC, the scripted net.Conn (returns exactly the scripted chunk per Read). Chunkings and body lengths are seeded samples; exhaustive only in the scaled model.")
 
 ENGINES = [
+ {"name": "framing", "path": "lib/framing_family.py + spec/Framing.tla, FramingFn.tla, MC_Framing.tla, Trace_Framing.tla + harness/chaos.go (stream mode)",
+  "serves_properties": ["C05"], "kind_free_text": "all-segmentations model check + stream replay"},
  {"name": "wire", "path": "lib/wire_family.py + spec/Wire.tla, MC_Wire.tla, Trace_Wire.tla + harness/codec.go",
   "serves_properties": ["C01", "C02", "C04"], "kind_free_text": "TLA+ layouts/decoders model-checked; TLC judges recorded codec operations"},
  {"name": "crypt", "path": "lib/crypt_family.py + spec/MD5.tla, Crypt.tla, MC_Crypt.tla, Trace_Client.tla, Trace_Server.tla + harness/client.go, chaos.go",
